@@ -41,6 +41,24 @@ def finish(pid, prop, tier, seed, results, wall):
         guards.append("zero obligations generated (vacuous run)")
     refuted = [o for o in obs if o["result"] == "sat"]
     unknown = [o for o in obs if o["result"] not in ("sat", "unsat")]
+    # An obligation the solvers leave open is "undecided" -- unless a failing input of the function it
+    # belongs to is found natively with the oracle restating the clause: then it is a violation with a
+    # real replayed input (never a verdict from `unknown` alone).
+    if unknown and hasattr(prop, "search"):
+        tried = {}
+        for o in list(unknown):
+            fn = o["name"].split("/")[0]
+            if fn not in tried:
+                try:
+                    tried[fn] = prop.search(o["name"])
+                except Exception:
+                    tried[fn] = None
+            if tried[fn]:
+                o["result"] = "sat"
+                o["solver_output"] = (o.get("solver_output") or "unknown") + " -- failing input found natively"
+                o["witness"] = tried[fn]["witness"]
+                refuted.append(o)
+                unknown.remove(o)
     for o in unknown:
         undecided.append(f"{o['name']}: solver {o.get('solver_output','unknown')}")
 
@@ -79,7 +97,7 @@ def finish(pid, prop, tier, seed, results, wall):
         o = grp[0]
         match = None
         for k in known:
-            if k["obligation"] == name or (k.get("obligation_regex") and re.fullmatch(k["obligation_regex"], name)):
+            if k.get("obligation") == name or (k.get("obligation_regex") and re.fullmatch(k["obligation_regex"], name)):
                 cls = k.get("input_class")
                 if cls is None or (witness is not None and getattr(prop, cls)(witness, native)):
                     match = k
